@@ -7,6 +7,7 @@ import Props.C07
 import Proofs.DeconvAdjoint
 import Proofs.ConvAdjoint
 import Proofs.MaxpoolAdjoint
+import Proofs.DenseStack
 
 /-!
 # C01 — backpropagated gradients are the true derivatives of the objective
@@ -60,17 +61,10 @@ theorem parameter_gradient {ι : Type} [Fintype ι] [DecidableEq ι] {m k : ℕ}
 /-! ### activations: differentiable away from the kinks, with the derivative the code uses -/
 
 /-- no pre-activation sits on a kink of the activation -/
-def NoKink (a : Act) (z : ℝ) : Prop := (a = .relu ∨ a = .leaky) → z ≠ 0
+abbrev NoKink := DenseStack.NoKink
 
 theorem act_hasDerivAt (a : Act) (ha : a ≠ .softmax) (z : ℝ) (hz : NoKink a z) :
-    HasDerivAt (Act.f a) (Act.df a z) z := by
-  cases a with
-  | relu => exact C07.relu_hasDerivAt z (hz (Or.inl rfl))
-  | leaky => exact C07.leaky_hasDerivAt z (hz (Or.inr rfl))
-  | sigmoid => exact C07.sigmoid_hasDerivAt z
-  | tanh => exact C07.tanh_hasDerivAt z
-  | linear => exact C07.linear_hasDerivAt z
-  | softmax => exact absurd rfl ha
+    HasDerivAt (Act.f a) (Act.df a z) z := DenseStack.act_hasDerivAt a ha z hz
 
 /-! ### the dense layer -/
 
@@ -141,6 +135,86 @@ theorem softmax_dense_passes_gradient {r c : ℕ} (l : DenseLayer ℝ) (W : V (F
   simp only [hshape, hloc, hadamard_vec, hl.scale, hd, product_vec _ _ hr, hl.weights, transpose_mat W hr hc,
     dot_mat_vec, hl.bias, Option.map_some]
   rfl
+
+/-! ### end to end: `Network::forward` / `Network::backward` on a multi-layer perceptron of any depth -/
+
+open DenseStack Walk in
+theorem acts_last : ∀ {n k : ℕ} (s : Stack n k) (x : Vec n),
+    (vecT x :: s.acts x).getLast? = some (vecT (s.net.fwd x))
+  | _, _, .nil _, x => rfl
+  | _, _, .cons a W b rest, x => by
+    have := acts_last rest (denseFn (Act.f a) W b x)
+    simp only [Stack.acts, Stack.net, Net.fwd]
+    rw [List.getLast?_cons_cons]
+    exact this
+
+open DenseStack Walk in
+/-- **for every stack of dense layers (any depth, any widths, any element-wise activations, any weights
+    and biases), on the model's own `Network.forward` and `Network.backward` folds**: the forward pass
+    records the vector functions' values, and the last gradient `Network.backward` hands on — computed by
+    the position-indexed reverse walk over the recorded trace — is the gradient of the objective with
+    respect to the network input: every coordinate is the partial derivative.  (Away from ReLU kinks;
+    `ℓ` is any objective differentiable at the output with gradient `g`.) -/
+theorem mlp_backward_is_gradient {d k : ℕ} (n : Network ℝ) (s : Stack d k) (hn : n.layers = s.layers)
+    (hc : n.connect = []) (hl : n.loopbacks = []) (x : Vec d) (hv : s.Valid) (hk : s.NoKinks x)
+    (ℓ : Vec k → ℝ) (g : Vec k) (hg : IsGrad ℓ (s.net.fwd x) g) :
+    ∃ t ws bs gs γ,
+      n.forward (vecT x) = .ok t ∧ t.act.getLast? = some (vecT (s.net.fwd x)) ∧
+      n.backward (vecT g) t = .ok (ws, bs, gs) ∧ gs.getLast? = some (vecT γ) ∧
+      IsGrad (ℓ ∘ s.net.fwd) x γ ∧
+      ∀ j, HasDerivAt (fun r => ℓ (s.net.fwd (Function.update x j r))) (γ j) (x j) := by
+  have hf := forward_eq_runRange n hc hl (vecT x)
+  unfold Network.runRange at hf
+  rw [hn, DenseStack.forward_fold s x hv] at hf
+  simp only [] at hf
+  obtain ⟨ws, bs, gs, h1, h2, h3, _⟩ := back_walk s x g 0
+    { pre := s.pres x, act := vecT x :: s.acts x, recs := s.layers.map (fun _ => Recorded.none) } [] [] hv rfl rfl rfl rfl
+  have hb := backward_eq_backSpec n hc (vecT g)
+    { pre := s.pres x, act := vecT x :: s.acts x, recs := s.layers.map (fun _ => Recorded.none) }
+  rw [hn, List.range_eq_range', h1] at hb
+  simp only [] at hb
+  have hgrad := Net.grad s.net x (Stack.net_ok s x hv hk) ℓ g hg
+  refine ⟨_, ws, bs, vecT g :: gs, s.net.bwd x g, hf, acts_last s x, hb, ?_, hgrad, fun j => hgrad.partial j⟩
+  rw [List.getLast?_cons, ← h2]
+
+open DenseStack Walk in
+/-- … and the weight gradient it records for the first layer is the gradient of the objective with
+    respect to that layer's weight matrix, entry by entry (any later layer is the first layer of the
+    sub-stack that starts there) -/
+theorem mlp_first_layer_weight_gradient {d m k : ℕ} (n : Network ℝ) (a : Act) (W : V (Fin m × Fin d)) (b : Vec m)
+    (rest : Stack m k) (hn : n.layers = (Stack.cons a W b rest).layers)
+    (hc : n.connect = []) (x : Vec d) (hv : (Stack.cons a W b rest).Valid) (hk : (Stack.cons a W b rest).NoKinks x)
+    (ℓ : Vec k → ℝ) (g : Vec k) (hg : IsGrad ℓ ((Stack.cons a W b rest).net.fwd x) g) :
+    ∃ ws bs gs ω,
+      n.backward (vecT g)
+        { pre := (Stack.cons a W b rest).pres x, act := vecT x :: (Stack.cons a W b rest).acts x,
+          recs := (Stack.cons a W b rest).layers.map (fun _ => Recorded.none) } = .ok (ws, bs, gs) ∧
+      ws.getLast? = some (.one (matT ω)) ∧
+      ∀ p, HasDerivAt (fun r => ℓ (rest.net.fwd (denseFn (Act.f a) (Function.update W p r) b x))) (ω p) (W p) := by
+  obtain ⟨ws, bs, gs, h1, _, _, h4⟩ := back_walk (Stack.cons a W b rest) x g 0
+    { pre := (Stack.cons a W b rest).pres x, act := vecT x :: (Stack.cons a W b rest).acts x,
+      recs := (Stack.cons a W b rest).layers.map (fun _ => Recorded.none) } [] [] hv rfl rfl rfl rfl
+  have hb := backward_eq_backSpec n hc (vecT g)
+    { pre := (Stack.cons a W b rest).pres x, act := vecT x :: (Stack.cons a W b rest).acts x,
+      recs := (Stack.cons a W b rest).layers.map (fun _ => Recorded.none) }
+  rw [hn, List.range_eq_range', h1] at hb
+  simp only [] at hb h4
+  refine ⟨ws, bs, vecT g :: gs, _, hb, h4, ?_⟩
+  have hd : ∀ i, HasDerivAt (Act.f a) (Act.df a (densePre W b x i)) (densePre W b x i) :=
+    fun i => DenseStack.act_hasDerivAt a hv.1 _ (hk.1 i)
+  exact parameter_gradient (fun W' => denseFn (Act.f a) W' b x) W _
+    (dense_vjp_weights (Act.f a) (Act.df a) W b x hd) rest.net (Stack.net_ok rest _ hv.2.2.2 hk.2) ℓ g hg
+
+open DenseStack in
+/-- non-vacuity: a 3 → 2 → 2 perceptron (sigmoid, then leaky ReLU with positive pre-activations) meets
+    every hypothesis of the two theorems above -/
+example : (Stack.cons .sigmoid (fun _ : Fin 2 × Fin 3 => (1 : ℝ)) (fun _ => 0)
+            (Stack.cons .linear (fun _ : Fin 2 × Fin 2 => (1 : ℝ)) (fun _ => 1) (.nil 2))).Valid ∧
+          (Stack.cons .sigmoid (fun _ : Fin 2 × Fin 3 => (1 : ℝ)) (fun _ => 0)
+            (Stack.cons .linear (fun _ : Fin 2 × Fin 2 => (1 : ℝ)) (fun _ => 1) (.nil 2))).NoKinks (fun _ => 1) := by
+  refine ⟨⟨by decide, by decide, by decide, by decide, by decide, by decide, trivial⟩, ⟨?_, ?_, trivial⟩⟩
+  · intro i h; rcases h with h | h <;> cases h
+  · intro i h; rcases h with h | h <;> cases h
 
 /-! ### spatial layers: backward is the transpose of forward, for every configuration
 
